@@ -86,6 +86,12 @@ bool Parser::parseStatement(StatementSyntax*& stmt, StatementContext stmtCtx)
         case SyntaxKind::Keyword_union:
         case SyntaxKind::Keyword_enum:
         case SyntaxKind::Keyword_ExtGNU___typeof__:
+
+        // declaration-specifiers -> alignment-specifier
+        case SyntaxKind::Keyword__Alignas:
+
+        // declaration-specifiers -> GNU-attribute-specifier
+        case SyntaxKind::Keyword_ExtGNU___attribute__:
             return parseDeclarationStatement(
                         stmt,
                         &Parser::parseDeclarationOrFunctionDefinition);
@@ -796,6 +802,12 @@ bool Parser::parseForStatement_AtFirst(StatementSyntax*& stmt,
         case SyntaxKind::Keyword_union:
         case SyntaxKind::Keyword_enum:
         case SyntaxKind::Keyword_ExtGNU___typeof__:
+
+        // declaration-specifiers -> alignment-specifier
+        case SyntaxKind::Keyword__Alignas:
+
+        // declaration-specifiers -> GNU-attribute-specifier
+        case SyntaxKind::Keyword_ExtGNU___attribute__:
             if (!parseDeclarationStatement(
                         forStmt->initStmt_,
                         &Parser::parseDeclarationOrFunctionDefinition)) {
